@@ -369,6 +369,7 @@ func c09(r *ev.Result, tier string) {
 	c09SingleFileConcurrent(r, root)
 	c09Descriptors(r, root)
 	c09StalledDownload(r, root)
+	c09NoticeBurst(r, root)
 	r.Set("responses_by_config_and_status", statuses)
 	r.Set("targets", len(targets))
 	r.Sample(5, c09Case{Config: "dir:nested", Target: "//sub/%2e%2e/..%2f/OUTSIDE-canary.txt"})
@@ -662,4 +663,76 @@ func c09StalledDownload(r *ev.Result, root string) {
 			What: fmt.Sprintf("a client received %d bytes of a 256 MiB file and then stopped reading: 30 s later the operator still has not been told about the request", got)})
 	}
 	r.Add(1)
+}
+
+// c09NoticeBurst: requests arriving faster than the operator's terminal takes
+// notices (they queue on the operator channel): 4 clients, 60 requests each,
+// of very different lengths, nothing taken off the channel until all have been
+// answered.  Every request has its own notice, carrying its own path.
+func c09NoticeBurst(r *ev.Result, root string) {
+	w, err := hworld.Start(hworld.Config{FDir: c09FDir(root, "dir:flat")})
+	if nil != err {
+		ev.Broken("%s", err)
+	}
+	defer w.Stop()
+	w.Drain()
+	const nClients, nReqs = 4, 60
+	var (
+		mu   sync.Mutex
+		sent = map[string]int{}
+		wg   sync.WaitGroup
+	)
+	for k := 0; k < nClients; k++ {
+		wg.Add(1)
+		go func(k int) {
+			defer wg.Done()
+			c, err := w.Dial("")
+			if nil != err {
+				return
+			}
+			defer c.Close()
+			for i := 0; i < nReqs; i++ {
+				/* Long, short, long, ...: a later notice shorter or longer
+				than the one before it. */
+				path := fmt.Sprintf("/burst-%d-%03d-%s", k, i, strings.Repeat("x", []int{0, 200, 3, 90, 1}[i%5]))
+				if _, err := c.Do(hworld.Get(path, w.Addr)); nil != err {
+					return
+				}
+				mu.Lock()
+				sent[path]++
+				mu.Unlock()
+			}
+		}(k)
+	}
+	wg.Wait()
+	got := map[string]int{}
+	var odd []string
+	for _, cl := range w.Drain() {
+		i := strings.Index(cl.Line, "File requested: ")
+		if i < 0 {
+			continue
+		}
+		p := strings.TrimSpace(cl.Line[i+len("File requested: "):])
+		if _, ok := sent[p]; !ok && len(odd) < 3 {
+			odd = append(odd, p)
+		}
+		got[p]++
+	}
+	missing := 0
+	example := ""
+	for p, n := range sent {
+		if got[p] != n {
+			missing++
+			if "" == example {
+				example = p
+			}
+		}
+	}
+	r.Add(len(sent))
+	r.AddDistinct(len(sent))
+	r.Set("requests_in_a_burst_of_notices", len(sent))
+	if 0 != missing || 0 != len(odd) {
+		r.Violate(ev.Violation{Signature: "notice-burst/request-not-reported", Kind: "c09", Replay: c09Case{Config: "dir:flat", Target: "/burst-... (4 clients x 60 requests, notices taken off the channel afterwards)"},
+			What: fmt.Sprintf("%d requests answered while the operator channel was not being read; afterwards %d of them have no notice of their own (e.g. %q), and notices name paths nobody requested: %q", len(sent), missing, trunc80(example), odd)})
+	}
 }
